@@ -115,14 +115,16 @@ type prepOp struct {
 	twinVal  reflect.Value
 	twinEnc  []byte        // encoding of the same data through the non-interned twin type
 	snap     reflect.Value // independent copy of val taken before anything ran
+	phys     string        // world.Phys(val) taken before anything ran
 	srcVal   reflect.Value // the value whose encoding data is (when known)
 	mergeOK  bool          // the merge model applies to this op
 }
 
 type Prepared struct {
-	sc     *Scenario
-	ops    [][]*prepOp
-	shared []reflect.Value
+	sc         *Scenario
+	ops        [][]*prepOp
+	shared     []reflect.Value
+	sharedPhys []string
 	// Excluded counts operations whose solo run panicked (they cannot be used
 	// as an oracle and are dropped at generation time).
 	Excluded int
@@ -226,7 +228,13 @@ func Prepare(sc *Scenario, drop bool) *Prepared {
 	p := &Prepared{sc: sc}
 	for _, sv := range sc.Shared {
 		op := Op{Type: sv.Type, VSeed: sv.VSeed, VSize: sv.VSize}
-		p.shared = append(p.shared, sc.genValue(&op))
+		sv := sc.genValue(&op)
+		if sc.Prop == "C11" {
+			rr := engine.PRNG{S: engine.Mix(op.VSeed, 0x5A9E)}
+			world.Reshape(sv, rr.Intn)
+		}
+		p.shared = append(p.shared, sv)
+		p.sharedPhys = append(p.sharedPhys, world.Phys(sv))
 	}
 	for ti := range sc.Tasks {
 		var kept []Op
@@ -267,8 +275,14 @@ func (p *Prepared) prepareOp(op *Op) (*prepOp, bool) {
 	case "marshal", "marshalAppend":
 		if op.Shared > 0 {
 			po.val = p.shared[op.Shared-1]
+			po.phys = p.sharedPhys[op.Shared-1]
 		} else {
 			po.val = sc.genValue(op)
+			if sc.Prop == "C11" {
+				rr := engine.PRNG{S: engine.Mix(op.VSeed, 0x5A9E)}
+				world.Reshape(po.val, rr.Intn)
+			}
+			po.phys = world.Phys(po.val)
 		}
 		// solo on an independent clone so that the oracle cannot disturb the value
 		cl := world.Clone(po.val)
@@ -574,6 +588,8 @@ func (t *taskState) sharedOp(i int, po *prepOp) {
 			}
 			if ok, path := world.Equal(po.val, po.snap); !ok {
 				t.fail(i, po, "alias", "Marshal modified the value it was given, at "+path)
+			} else if ph := world.Phys(po.val); ph != po.phys {
+				t.fail(i, po, "alias", "Marshal modified the value it was given (slice headers, spare capacity or pointers): "+world.DiffPhys(po.phys, ph))
 			} else if t.x.prop == "C11" {
 				t.aliasCheck(i, po, b)
 			}
